@@ -209,6 +209,13 @@ func (w *World) errorSafety(prop string) []Violation {
 		}
 		switch s.ErrClass {
 		case "app":
+			if strings.Contains(s.ErrStr, hb.LogClosedMsg) {
+				// java.io.IOException is an application exception unless it says that
+				// the write-ahead log is closed: then the region is being closed,
+				// the request is to be re-located and sent again
+				vs = append(vs, w.viol(prop, "retryable-surfaced", "%s: the log-closed IOException (a not-serving condition) surfaced to the caller: %s", what, firstLine(s.ErrStr)))
+				return
+			}
 			// the server must have sent exactly this exception for this nonce,
 			// and nothing may have been attempted afterwards
 			ex := byNonce[s.Nonce]
